@@ -21,6 +21,10 @@ RULE = ('Hypothesis draws the state dimension d (1..3), snapshot count m (under-
         'bit-identical. Non-trivial: duplicated snapshot, under-determined system, add_one = False, d = 1 or several outputs.')
 RULE += (' ' + 'Added classes: complex right-hand sides (direct MANDy variants and ARR); the ARR guess is compared bit by bit.')
 
+RULE += (' Sub-check mandy_nearly_coincident: two snapshots 3e-12 ... 1e-9 apart in one coordinate (Psi of full column rank, smallest singular-value '
+         'ratio 2e-12 ... 1e-8), threshold 0; oracle: the residual bound of a backward-stable pseudoinverse, ||Xi^T Psi - y|| <= 300 eps cond(Psi) ||y|| '
+         '(only where that is below 0.05 ||y||); non-trivial = ratio below 1e-8.')
+
 ASSUMPTIONS = [
     'oracle: numpy.linalg.pinv / explicit loops; the transformed data matrix is built by the harness (c15.psi_ref)',
     'thresholds lie below the smallest relevant singular-value ratio: cases with a singular-value ratio of an unfolding of Psi in '
@@ -169,6 +173,80 @@ def body_mandy(c):
         lab.add('threshold>0')
     if tight:
         lab.add('threshold_just_below_smallest_ratio')
+    return lab | form_labels(c)
+
+
+# ---------------------------------------------------------------------------------------------------------
+# MANDy on full-rank but badly conditioned data (two nearly coincident snapshots), threshold 0
+# ---------------------------------------------------------------------------------------------------------
+# "Thresholds below the smallest singular-value ratio" includes threshold 0 on a matrix Psi of full column rank whose smallest
+# singular-value ratio is 1e-11: every singular value is inverted.  The solution itself is then determined only to eps cond^2, so
+# it is not compared; what a backward-stable pseudoinverse still guarantees is the RESIDUAL: Psi + E = U S V^T with
+# ||E|| <= c eps ||Psi|| gives Xi^T Psi - y = -y V S^-1 U^T E, i.e. ||Xi^T Psi - y|| <= c eps cond(Psi) ||y||, while dropping the
+# smallest singular direction leaves the component of y along it (about ||y|| / sqrt(m) for a generic y).  c = 300 (measured on
+# the unchanged tree: c <= 5, see DESIGN 9.2), and the clause is only evaluated where the bound is below 0.05 ||y||.
+
+@st.composite
+def nearly_coincident_case(draw):
+    d = draw(st.integers(1, 3))
+    variant = draw(st.sampled_from(['cm', 'fm']))
+    names = draw(st.lists(st.sampled_from(['one', 'id', 'sq', 'cube', 'sin', 'cos', 'exp']), min_size=2, max_size=3, unique=True))
+    return {'d': d, 'variant': variant, 'phi': names, 'm': draw(st.sampled_from([2, 3, 4, 5])), 'add_one': draw(st.booleans()),
+            'seed': draw(gen.SEED), 'delta': draw(st.sampled_from([1e-11, 3e-12, 3e-11, 1e-9])), 'y_form': draw(Y_FORM),
+            'pair': draw(st.sampled_from(['last_first', 'adjacent']))}
+
+
+def body_nearly_coincident(c):
+    d, m = c['d'], c['m']
+    rng = np.random.default_rng(c['seed'])
+    x = rng.uniform(-1, 1, (d, m))
+    a, b = (m - 1, 0) if c['pair'] == 'last_first' else (1, 0)
+    x[:, a] = x[:, b]
+    x[c['seed'] % d, a] += c['delta']                   # two snapshots that differ by delta in one coordinate
+    y = make_y(np.random.default_rng(c['seed'] + 1), (d, m), c.get('y_form', 'float'))
+    names = c['phi']
+    phi = [SCF[k] for k in names]
+    if c['variant'] == 'cm':
+        vals = [np.array([[SCF[k](x[i, j]) for j in range(m)] for k in names]) for i in range(d)]
+    else:
+        vals = []
+        for k in names:
+            v = np.array([[SCF[k](x[cc, j]) for j in range(m)] for cc in range(d)])
+            if c['add_one']:
+                v = np.vstack([np.ones((1, m)), v])
+            vals.append(v)
+    psi = c15.psi_ref(vals)
+    M = psi.reshape(-1, m)
+    assume(M.shape[0] >= m)
+    sv = np.linalg.svd(M, compute_uv=False)
+    assume(sv[0] > 0)
+    ratio = float(sv[-1] / sv[0])
+    # full column rank (every snapshot is interpolated exactly by the minimum-norm solution) and a useful bound
+    bound = 300 * np.finfo(float).eps / max(ratio, 1e-300)
+    assume(ratio > 1e-12 and bound < 0.05)
+    assume(float(np.linalg.norm(y)) > 0)
+    if c['variant'] == 'cm':
+        xi = reg.mandy_cm(x, y, phi, threshold=0.0)
+    else:
+        xi = reg.mandy_fm(x, y, phi, threshold=0.0, add_one=c['add_one'])
+    require_consistent(xi, 'consistent')
+    n = list(psi.shape[:-1])
+    require(xi.row_dims == n + [d] and xi.col_dims == [1] * (len(n) + 1), 'dims', 'rows %s, expected %s' % (xi.row_dims, n + [d]))
+    got = dense.contract(xi.cores).reshape(int(np.prod(n)), d)
+    require(np.all(np.isfinite(got)), 'finite', 'non-finite coefficients')
+    res = float(np.linalg.norm(got.T @ M - y))
+    require(res <= bound * float(np.linalg.norm(y)), 'mandy_interpolates',
+            'mandy_%s, threshold 0, full column rank, smallest singular-value ratio %.2e: ||Xi^T Psi - y|| = %.3e ||y|| > %.3e ||y|| (300 eps cond)'
+            % (c['variant'], ratio, res / float(np.linalg.norm(y)), bound))
+    lab = {'mandy_' + c['variant'], 'nearly_coincident_snapshots'}
+    if ratio < 1e-10:
+        lab.add('ratio_below_1e-10')
+    elif ratio < 1e-8:
+        lab.add('ratio_below_1e-8')
+    if c['variant'] == 'fm' and not c['add_one']:
+        lab.add('add_one_false')
+    if d == 1:
+        lab.add('d1')
     return lab | form_labels(c)
 
 
@@ -381,6 +459,8 @@ SUBCHECKS = [
     Sub('mandy', mandy_case(), body_mandy, nt, quick=400, thorough=4000, shards_quick=4,
         classes=['mandy_cm', 'mandy_fm', 'duplicated_snapshot', 'underdetermined', 'overdetermined', 'add_one_false', 'threshold>0', 'd1',
                  'data_int', 'data_strided', 'y_int', 'threshold_just_below_smallest_ratio']),
+    Sub('mandy_nearly_coincident', nearly_coincident_case(), body_nearly_coincident, lambda l: bool({'ratio_below_1e-10', 'ratio_below_1e-8'} & set(l)),
+        quick=300, thorough=3000, classes=['mandy_cm', 'mandy_fm', 'ratio_below_1e-10', 'ratio_below_1e-8', 'add_one_false', 'd1']),
     Sub('kernel', kernel_case(), body_kernel, nt, quick=300, thorough=3000, classes=['kernel', 'several_outputs', 'singular_gram', 'regular_gram', 'single_function_mode', 'user_defined_function']),
     Sub('arr', arr_case(), body_arr, nt, quick=400, thorough=3000, shards_quick=8, budget_quick=150,
         classes=['arr', 'several_outputs', 'exactly_fittable', 'repeats1', 'repeats4', 'single_function_mode', 'moderately_ill_conditioned', 'cond>1e6']),
